@@ -1325,3 +1325,25 @@ Proof.
   intros H i s ch g cci HA. apply attribute_at_value in HA. apply nth_error_In in HA.
   unfold no_k2_b in H. rewrite forallb_forall in H. specialize (H _ HA). cbn [snd] in H. apply negb_true_iff in H. exact H.
 Qed.
+
+(* the same with a judgement that may look at the model's step (needed where the judgement scans a response
+   whose content is not fixed by the reference semantics) *)
+Theorem monitor_sound_with_step (judge : cfg -> astate -> srv_op -> expect -> srv_out -> verdict) (P : srv_op -> bool) c :
+  (forall st a o, sim c st a -> P o = true -> snd (srv_step c st o) <> OFault ->
+     (sat_cond c (snd (astep c a o)) -> sat c (snd (astep c a o)) (snd (srv_step c st o))) ->
+     judge c a o (snd (astep c a o)) (snd (srv_step c st o)) = Ok) ->
+  forall ops st a pos, sim c st a -> forallb P ops = true ->
+    monitor_from_with judge c (Some a) pos (srv_run c st ops) = None.
+Proof.
+  intros J. induction ops as [|o t IH]; intros st a pos Sm HP; [reflexivity|].
+  cbn [forallb] in HP. apply andb_true_iff in HP. destruct HP as [Po Pt].
+  cbn [srv_run]. pose proof (J st a o Sm Po) as Jo. pose proof (sim_step c st a o Sm) as SS.
+  destruct (srv_step c st o) as [st' r] eqn:E. cbn [fst snd] in *. cbn [monitor_from_with].
+  assert (NFcase : r = OFault \/ r <> OFault) by (destruct r; (left; reflexivity) || (right; discriminate)).
+  destruct NFcase as [->|NF].
+  - cbn [mstep_with]. apply dead_accepts.
+  - destruct (SS NF) as [S' Sat].
+    assert (M : mstep_with judge c (Some a) o r = (judge c a o (snd (astep c a o)) r, Some (fst (astep c a o)))).
+    { unfold mstep_with. destruct (astep c a o) as [a' x]. destruct r; try reflexivity. contradiction. }
+    rewrite M. rewrite (Jo NF Sat). apply IH; assumption.
+Qed.
